@@ -3,7 +3,7 @@
    same definitions the theorems are stated with. *)
 From Coq Require Import NArith ZArith List Bool.
 From XV Require Import Base.Str Base.Dec Base.PyInt Gen.ConvTables
-  Model.ConvInt Model.ConvBytes Model.ConvDecimal Model.ConvQName Spec.XsdPrims.
+  Model.ConvInt Model.ConvBytes Model.ConvDecimal Model.ConvQName Spec.XsdPrims Spec.XsdDates.
 Import ListNotations.
 Open Scope N_scope.
 
@@ -106,3 +106,11 @@ Definition is_repr_sp (d : double_sp) : bool :=
   end.
 Definition repr_shape_ok (s : str) : bool :=
   let d := parse_double_sp s in wf_double d && is_repr_sp d && str_eqb (lex_double d) s.
+
+(* the g* datatype whose lexical space a spelling belongs to *)
+Definition period_kind (p : period_sp) : str :=
+  match p with
+  | GDay _ _ => dt_G_DAY | GMonth _ _ => dt_G_MONTH | GMonthDay _ _ _ => dt_G_MONTH_DAY
+  | GYear _ _ => dt_G_YEAR | GYearMonth _ _ _ => dt_G_YEAR_MONTH
+  end.
+
